@@ -1019,6 +1019,52 @@ class Sugar:
             self.expanded.append((bi, d))
             return True
 
+        if nm in ("fold", "try_fold") and len(t["args"]) == 3:
+            # acc = init; loop { acc = f(acc, x) }  /  loop { match f(acc, x) { Ok(a) | Some(a) => acc = a, bad => break bad } }
+            ch = self.chain_of(t["args"][0])
+            if ch is None:
+                return False
+            base, adaptors = ch
+            clo = t["args"][2]
+            if resolve_closure(self.facts, self.blocks, clo)[0] is None:
+                return False
+            if any(a[1] is not None and resolve_closure(self.facts, self.blocks, a[1])[0] is None for a in adaptors):
+                return False
+            bt = base_type(base)
+            dty = t.get("dest_ty") or "?"
+            acc = B.local((t.get("arg_tys") or ["?", "?"])[1] if len(t.get("arg_tys") or []) > 1 else "?", "acc")
+
+            def to(rv, nxt=cont):
+                return B.block([B.assign(dest, rv)], B.goto(nxt))
+            if nm == "fold":
+                def on_item(v, head):
+                    tmp = B.local("?")
+                    back = B.block([B.assign(P(acc), B.use(M(tmp)))], B.goto(head.new()))
+                    return self.call_closure(B, clo, [M(acc), M(v)], P(tmp), back, dep, stack)
+                end = lambda: to(B.use(M(acc)))
+            else:
+                is_res = dty.startswith("std::result::Result")
+                if not is_res and not dty.startswith("std::option::Option"):
+                    return False
+                adt = RESULT if is_res else OPTION
+                good_vi, good_nm = (0, "Ok") if is_res else (1, "Some")
+
+                def on_item(v, head):
+                    rloc = B.local(dty)
+                    stop = to(B.use(M(rloc)))
+                    keep = B.block([B.assign(P(acc), B.use({"m": variant_payload(P(rloc), adt, good_nm, good_vi, "?")}))], B.goto(head.new()))
+                    st = []
+                    arms = {0: keep, 1: stop} if is_res else {0: stop, 1: keep}
+                    term = self._switch_enum(B, st, rloc, adt, dty, arms)
+                    sw = B.block(st, term)
+                    return self.call_closure(B, clo, [M(acc), M(v)], P(rloc), sw, dep, stack)
+                end = lambda: to(B.agg(adt, good_nm, good_vi, [M(acc)]))
+            head = self._pull(B, base, adaptors, on_item, end, dep, stack, bt)
+            b["stmts"].append(B.assign(P(acc), B.use(t["args"][1])))
+            b["term"] = {"k": "goto", "t": head, "span": span, "sugar_site": t}
+            self.expanded.append((bi, d))
+            return True
+
         if nm == "collect" and len(t["args"]) == 1:
             # `chain.collect::<Vec<_> | HashSet<_> | HashMap<_, _>>()` (optionally inside Result / Option)
             # over recognised lazy adaptors: an explicit loop that pushes / inserts each item
